@@ -276,6 +276,11 @@ func (w *World) GenText(p *Party, class int, alphabet int) []byte {
 		}
 		t = append(t, c)
 	}
+	if deco == 6 {
+		// a NUL inside the text, followed by bytes that look like a TLV (disconnect / SMP abort /
+		// padding): a text is a text, nothing in it may be taken for protocol by the receiver
+		t = append(t, []string{"\x00\x00\x01\x00\x00", "\x00\x00\x06\x00\x00", "\x00tail", "\x00\x00\x00\x00\x03abc"}[pr.Intn(4)]...)
+	}
 	if deco == 4 {
 		t = append(t, []string{" ", "\t", "  \t ", " \t\t"}[pr.Intn(4)]...)
 	}
